@@ -29,12 +29,26 @@ Section WithCtx.
            ws_write_gen true (ws_log_ev (ws_write st (firstn k z)) EvFlush) (skipn k z)
          end.
 
+  (** what a directory writer does to the stream: the synchronous [Directory::to_writer] encodes into memory
+      and hands the finished bytes to the stream with one [write_all] followed by [flush] (so that no byte
+      is left to an encoder's Drop); the asynchronous one streams through the codec writer and closes it *)
+  Definition ws_write_dir (asy : bool) (st : wstream) (z : bytes) : wstream :=
+    ws_log_ev (ws_write st z) (if asy then EvClose else EvFlush).
+
   (** [Directory::to_writer(output, compression)] / [to_async_writer] on a stream *)
   Definition write_dir (asy : bool) (c : compression) (es : list entry) (st : wstream) : outcome (wstream * N) :=
     do _ <- compress cx asy c [];
     do plain <- encode_dir_plain es;
     do z <- compress cx asy c plain;
-    Ok (ws_write_codec asy c st plain z, nlen z).
+    Ok (ws_write_dir asy st z, nlen z).
+
+  (** the synchronous directory writer before its repair (D6): it streamed through the codec writer, whose
+      last bytes are written from Drop *)
+  Definition write_dir_streaming (c : compression) (es : list entry) (st : wstream) : outcome (wstream * N) :=
+    do _ <- compress cx false c [];
+    do plain <- encode_dir_plain es;
+    do z <- compress cx false c plain;
+    Ok (ws_write_codec false c st plain z, nlen z).
 
   (** one pass over the chunks: the leaf section so far (reversed list of leaf blobs), its length, and
       the pointer entries (reversed).  Leaf directories are always written with the synchronous
